@@ -629,6 +629,19 @@ def run(ctx):
             rep.violation(dict(kind="wrong-value" if oc[0] == "val" else "no-value", cause="threshold beyond the float range", outcome=oc[0]),
                           "C08 fails on the implementation: %s gives %s; the cumulative distribution function there is %s (a diagnosed error would also do)"
                           % (text, show_outcome(oc), exp), dict(text=text, impl=show_outcome(oc), expected=str(exp)))
+    # ---------------- 0a-seams. the same events reached through arrays, comprehensions (body and condition), variables:
+    # the same probability, and an invalid parameter is refused there too (never swallowed into "condition false")
+    C.seam_check(rep, ctx["rundir"], "C08",
+                 texts=["P(Binomial(3,1/2) <= 1)", "P(Binomial(0,1/2) <= 1)", "P(Poisson(0) <= 1)", "P(Geometric(2) <= 1)", "P(UniformInt(3,2) <= 2)",
+                        "P(Gaussian(0,0) <= 1)", "P(Exponential(0) <= 1)", "P(Uniform(3,2) <= 1)", "P(Bernoulli(3/2) <= 0)", "E(Binomial(0,1/2))",
+                        "P(1 < UniformInt(1,6) <= 4)", "P(Poisson(30) = 0)", "P(2 < Poisson(40) < 9)", "P(Gaussian(0,1) < -7)", "E(UniformInt(1,10))"],
+                 wrappers=C.SEAM_WRAPPERS + [C.SEAM_CONDITION],
+                 templates=[("P(Binomial(%s, 1/2) >= 2)", ["3", "4", "6"]), ("P(Binomial(%s, 0.5) >= 2) > 0.5", ["0", "4", "6"]), ("P(UniformInt(1, 6) < %s)", ["2", "3", "7/2"]),
+                            ("P(UniformInt(1, 6) > %s)", ["2", "3", "7/2"]), ("P(%s < Poisson(3))", ["1", "2", "3"]), ("E(Binomial(%s, 1/3))", ["3", "6"])],
+                 pairs=[("X = UniformInt(1, 6); (P(X < 2) < 0.2) + (P(X > 2) > 0.6)", "2"),
+                        ("P(Binomial(10,0.5) < 3); P(Binomial(10,0.5) > 3) > 0.8", "1"), ("P(UniformInt(1,6) <= 2); P(UniformInt(1,6) >= 2) > 0.8", "1"),
+                        ("P(Poisson(3) < 2); P(2 < Poisson(3)) > 0.5", "1"), ("P(Geometric(1/3) <= 2); P(2 <= Geometric(1/3)) > 0.6", "1"),
+                        ("P(Binomial(10,0.5) > 3); P(Binomial(10,0.5) < 3) < 0.1", "1")])
     # ---------------- 0b. deep-tail consistency of a discrete law with a large mean: the point mass must be the
     # difference of the cumulative values (P(X=k) = P(X<=k) - P(X<k)) and satisfy pmf(k+1)/pmf(k) = mu/(k+1),
     # across the place where Poisson.pmf switches to its logarithmic formula (k > 100)
